@@ -235,14 +235,23 @@ fn run_indices(rc_cfg: &RunCfg, indices: &[u64], stats: &mut Stats, deadline: Op
             None => gen_case(ctx, rs),
         };
         stats.inc("runs");
-        if stats.samples.len() < 3 && (i / rc_cfg.stride) % 7 == 0 {
-            let mut d = describe(&case);
-            d["run_index"] = serde_json::json!(i);
-            d["run_seed"] = serde_json::json!(rs);
-            stats.samples.push(d);
-        }
+        let sample_this = stats.samples.len() < 3 && (i / rc_cfg.stride) % 7 == 0;
         match run_case(&case, stats, ctx.miri()) {
             Ok(o) => {
+                if sample_this {
+                    // written-out sample; for task-engine cases with the scheduler's decision trace
+                    // (taken from one more execution of the same case, after the judged one)
+                    let mut d = match &case {
+                        Case::Par(c) if !ctx.miri() => {
+                            let again = par::execute(c, &c.sched, c.yield_mode);
+                            par::describe(c, Some(&again.trace))
+                        },
+                        _ => describe(&case),
+                    };
+                    d["run_index"] = serde_json::json!(i);
+                    d["run_seed"] = serde_json::json!(rs);
+                    stats.samples.push(d);
+                }
                 // exact sets up to a cap per worker; beyond it the count is a lower bound (and says so)
                 if stats.fingerprints.len() < SET_CAP {
                     stats.fingerprints.insert(o.fp);
